@@ -112,6 +112,8 @@ class SubPackets(collections_abc.MutableMapping, Field):
         self._unhashed_sp = collections.OrderedDict()
         # the hashed subpacket area exactly as it was parsed, if it was parsed
         self._hashed_raw = None
+        # likewise the unhashed area, so that a parsed signature is re-exported octet for octet
+        self._unhashed_raw = None
 
     def __bytearray__(self):
         _bytes = bytearray()
@@ -129,6 +131,8 @@ class SubPackets(collections_abc.MutableMapping, Field):
         return _bytes
 
     def __unhashbytearray__(self):
+        if self._unhashed_raw is not None:
+            return bytearray(self._unhashed_raw)
         _bytes = bytearray()
         _bytes += self.int_to_bytes(sum(len(sp) for sp in self._unhashed_sp.values()), 2)
         for uhsp in self._unhashed_sp.values():
@@ -159,6 +163,9 @@ class SubPackets(collections_abc.MutableMapping, Field):
             d, key = self._hashed_sp, key[2:]
             self._hashed_raw = None
 
+        else:
+            self._unhashed_raw = None
+
         while (key, i) in d:
             i += 1
 
@@ -186,6 +193,7 @@ class SubPackets(collections_abc.MutableMapping, Field):
         sp._hashed_sp = self._hashed_sp.copy()
         sp._unhashed_sp = self._unhashed_sp.copy()
         sp._hashed_raw = copy.copy(self._hashed_raw)
+        sp._unhashed_raw = copy.copy(self._unhashed_raw)
 
         return sp
 
@@ -223,12 +231,16 @@ class SubPackets(collections_abc.MutableMapping, Field):
         self._hashed_raw = hashed_raw
 
         uhl = self.bytes_to_int(packet[:2])
+        unhashed_raw = packet[:2 + uhl]
         del packet[:2]
 
         plen = len(packet)
         while plen - len(packet) < uhl:
             sp = SignatureSP(packet)
             self[sp.__class__.__name__] = sp
+
+        if plen - len(packet) == uhl:
+            self._unhashed_raw = unhashed_raw
 
 
 class UserAttributeSubPackets(SubPackets):
